@@ -32,6 +32,16 @@ Proof.
   - rewrite E; simpl. intros p [Hp|[]]; discriminate.
 Qed.
 
+Lemma step_idlefail : forall s c s', Inv s -> step s (IdleFail c) = Some s' -> Inv s'.
+Proof.
+  intros s c s' I H. simpl in H. destruct (e_st (ent s c)) eqn:ES; try discriminate. inv_some.
+  pose proof (I_good s I c) as G.
+  assert (E : e_comp (ent s c) = []) by (eapply comp_nil_of_good; eauto; congruence).
+  apply inv_with_ent_local; simpl; auto; try congruence.
+  - apply good_complete; auto; congruence.
+  - rewrite E; simpl. intros p [Hp|[]]; discriminate.
+Qed.
+
 Lemma step_queuefail : forall s c s', Inv s -> step s (QueueFail c) = Some s' -> Inv s'.
 Proof.
   intros s c s' I H. simpl in H. destruct (e_st (ent s c)) eqn:ES; try discriminate. destruct (closed s); try discriminate. inv_some.
@@ -366,6 +376,7 @@ Proof.
     intros h' ep' j c' p' H'. destruct (Nat.eq_dec h' h) as [E|N]; [subst; rewrite updl_same in H'; discriminate | rewrite updl_other in H'; eauto].
   - eapply step_closefail; eauto.
   - eapply step_queuefail; eauto.
+  - eapply step_idlefail; eauto.
 Qed.
 
 Lemma run_inv : forall ls s s', Inv s -> run s ls = Some s' -> Inv s'.
